@@ -70,6 +70,15 @@ def _clades(node, nodes):
     return s
 
 
+def _leaves_in_order(n):
+    if not n["children"]:
+        return [n]
+    out = []
+    for c in n["children"]:
+        out += _leaves_in_order(c)
+    return out
+
+
 def _build(mk, desc, T, blsym, subst_kind, freqs, site_pattern=None):
     """desc: dict(newick, taxa(list of names), seq_order(list), cols(list of column indices), tip_states, use_amb).
     site_pattern: a SitePattern object to SHARE (built from the same description) instead of a fresh one"""
@@ -102,8 +111,15 @@ def _build(mk, desc, T, blsym, subst_kind, freqs, site_pattern=None):
         taxa_names = sorted(taxa_names, reverse=True)
     elif edit is not None:
         raise RuntimeError("unknown edit %r" % (edit,))
-    tree = parse_tree(taxa, {"newick": desc.get("tag", "") + desc["newick"]})
-    nodes, root = trees.index_tree(trees.parse_newick(desc["newick"]), taxa_names)
+    tdata = {"newick": desc.get("tag", "") + desc["newick"]}
+    index_names = taxa_names
+    if desc.get("postorder"):
+        # JSON option use_postorder_indices: leaves are numbered in the order in which the NEWICK string lists them (the branch-length
+        # vector follows that numbering); which tip carries which sequence is still decided by the NAMES
+        tdata["use_postorder_indices"] = True
+        index_names = [n["name"] for n in _leaves_in_order(trees.parse_newick(desc["newick"]))]
+    tree = parse_tree(taxa, tdata)
+    nodes, root = trees.index_tree(trees.parse_newick(desc["newick"]), index_names)
     # branch-length vector: entry i belongs to the branch above node i, identified by its split
     vals = []
     for i in range(2 * T - 3):
@@ -431,6 +447,11 @@ def obligations(tier, seed):
                 tb = _reroot(tree, target)
                 b = dict(base, newick=trees.to_newick(tb, names))
                 add("C02.reroot.JC69[%s -> %s]" % (base["newick"], b["newick"]), (T, base, b, "JC69"), "root placement (pulley principle, JC69 exact)")
+    # leaf numbering option of the tree specification (fixed cases: the names of these obligations do not depend on the seed)
+    for newick, order in (("((A,C),B);", "CBA"), ("((A,C),B);", "ACB"), ("((A,D),(B,C));", "DCBA"), ("(((A,B),C),(D,E));", "EDCBA"), ("(((A,B),C),(D,E));", "ABCDE")):
+        T = len(order)
+        a5 = {"newick": newick, "taxa": list(order), "seq_order": NAMES[:T], "cols": list(range(4 if T >= 5 else 6))}
+        add("C02.use_postorder_indices[%s,taxa=%s]" % (newick, order), (T, a5, dict(a5, postorder=True), "stub"), "leaf numbering option (use_postorder_indices)")
     # one SitePattern shared by models with different options, every declaration order
     V3 = [{"use_amb": True}, {"use_amb": False}, {"tip_states": True}]
     base3 = {"newick": trees.to_newick(((0, 1), 2), NAMES[:3]), "taxa": NAMES[:3], "seq_order": NAMES[:3], "cols": list(range(9))}
